@@ -148,6 +148,9 @@ theorem Res.runSeq_tryCatch (r : Res α) (h : Exc → Conn → Res α) :
 @[simp] theorem sendTestReqR_seq (env : Env) : (sendTestReqR env).runSeq = sendTestReq env := by
   simp [sendTestReqR, sendTestReq]
 
+@[simp] theorem swallowR_seq (d : α) (x : R α) : (swallowR d x).runSeq = swallow d x.runSeq := by
+  simp [swallowR, swallow]
+
 @[simp] theorem disconnectR_seq (env : Env) (d : Nat) (l : Option String) :
     (disconnectR env d l).runSeq = disconnect env d l := by
   cases l <;> simp [disconnectR, disconnect]
@@ -214,9 +217,6 @@ theorem Res.runSeq_tryCatch (r : Res α) (h : Exc → Conn → Res α) :
 @[simp] theorem processDispatchR_seq (env : Env) (sr : Msg → Bool) (m : Msg) (valid : Bool) (n : Int) :
     (processDispatchR env sr m valid n).runSeq = processDispatch env sr m valid n := by
   simp [processDispatchR, processDispatch]
-
-@[simp] theorem swallowR_seq (d : α) (x : R α) : (swallowR d x).runSeq = swallow d x.runSeq := by
-  simp [swallowR, swallow]
 
 @[simp] theorem processMessageR_seq (env : Env) (sr : Msg → Bool) (m : Msg) :
     (processMessageR env sr m).runSeq = processMessage env sr m := by
